@@ -1174,8 +1174,9 @@ func baseCfg(profile string) Cfg {
 		c.W[SFuncLit] = 2
 		c.GenLits = true
 	case "scope":
-		c.W[SDecl], c.W[SAssign], c.W[SFuncLit], c.W[SBlock], c.W[SExpr] = 12, 9, 8, 6, 5
-		c.Closures, c.GenLits = true, true
+		c.W[SDecl], c.W[SAssign], c.W[SFuncLit], c.W[SBlock], c.W[SExpr], c.W[SRange] = 12, 9, 8, 6, 5, 5
+		c.Closures, c.GenLits, c.Ranges = true, true, true
+		c.Quar["A6"] = true
 	case "delegation":
 		c.W[SYieldFrom], c.W[SFuncLit] = 10, 3
 		c.Deleg, c.GenLits = true, true
